@@ -682,3 +682,34 @@ Proof.
   pose proof (H n d (or_introl eq_refl)) as Hd. destruct (d_entries d); [contradiction|]. cbn [negb].
   f_equal. apply IH. intros net d0 Hin. apply (H net d0). right. exact Hin.
 Qed.
+
+(* ================================================ the per-session counter *)
+
+(* corpus/C15/known-session-counter.json *)
+Definition kf_attr : attrs :=
+  {| a_tok := 100; a_lp := None; a_segs := Some [(2, 1)]; a_origin := Some 0; a_clen := None;
+     a_oid := None; a_llgr := false; a_nollgr := false; a_mm := None |}.
+Definition kf_ops : list op :=
+  [ Insert (ex_src 1 1 9 0) 1 0 (Some 1) kf_attr false false (Some (5, 1));
+    Restale false 1;
+    Insert (ex_src 11 1 9 0) 1 0 (Some 1) kf_attr false false (Some (5, 11));
+    Remove (ex_src 11 1 9 0) 1 0 (Some 11) ].
+Definition kf_f (tok : N) : N := if tok =? 11 then 1 else tok.
+
+(* the faithful model of the unrepaired code: after a graceful-restart
+   reconnect the new session's counter wraps below zero, and the next new
+   prefix is rejected although the session holds no prefix at all *)
+Lemma C15_limit_counter_refuted :
+  exists shard ops f mx c,
+    Forall (op_wf f) ops /\ Forall (ctr_disciplined f mx) ops /\ mx c < 4294967296
+    /\ session_alive (f c) c false ops = true
+    /\ Known_C15_two_sessions (f c) shard ops
+    /\ ctr_of (run (empty_table shard) ops) c = 18446744073709551615
+    /\ sess_recount (run (empty_table shard) ops) c = 0
+    /\ snd (step (run (empty_table shard) ops)
+                 (Insert (ex_src 11 1 9 0) 2 0 (Some 1) kf_attr false false (Some (mx c, c)))) = true.
+Proof.
+  exists 0, kf_ops, kf_f, (fun _ => 5), 11. repeat split.
+  - repeat constructor.
+  - repeat constructor.
+Qed.
